@@ -151,7 +151,7 @@ func (o c20Opts) export() *markdown.ExportOptions {
 func c20Tok(pos, j int) string { return fmt.Sprintf("K%d%c", pos, 'a'+j) }
 
 // text classes (DESIGN §4 C20): t, a*b, _x_, "# h", a|b, "1. x", "`", " t "
-var c20Classes = []string{"t", "star", "under", "hash", "pipe", "ordered", "tick", "space", "words"}
+var c20Classes = []string{"t", "star", "under", "hash", "pipe", "ordered", "tick", "space", "words", "cjk"}
 
 func c20Text(class, tok string) string {
 	switch class {
@@ -171,6 +171,9 @@ func c20Text(class, tok string) string {
 		return " " + tok + " "
 	case "words":
 		return tok + " w"
+	case "cjk":
+		// words that end and begin with East Asian characters: a wrapped export folds between them
+		return tok + "漢 字"
 	}
 	return tok
 }
@@ -1629,7 +1632,7 @@ func c20Attribute(els []c20Elem, o c20Opts, sig string) string {
 			for r := range variant[k].Runs {
 				if run := &variant[k].Runs[r]; run.Tok != "" && run.Class != keep && run.Class != "t" {
 					// neutral text of the same length and word shape: metacharacters become letters
-					keepBlank := run.Class != "space" && run.Class != "words"
+					keepBlank := run.Class != "space" && run.Class != "words" && run.Class != "cjk"
 					neutral := func(t string) string {
 						b := []byte(t)
 						for x := range b {
